@@ -94,8 +94,8 @@ CHECKS = {
         'level_text': 'z3 decides, for every int64 nanosecond duration at once, that UnmarshalText(MarshalText(d)) = d on the SSA of the real functions (integer arithmetic with explicit two\'s-complement wrap; the numerals are kept as tokens so the solver reasons about the integers, not digit strings); replayed natively. Claimed for the Duration half of the property only.',
         'level_note': 'real Duration.MarshalText and Duration.UnmarshalText executed from SSA; fmt %d / %09d, strings.TrimRight/Cut, strconv.Atoi/ParseFloat (correctly rounded) and the two duration regexps are exact token-level contracts keyed by their pattern text (a changed pattern has no contract: inconclusive). Outside (not claimed): RelaxedTime text <-> instant (time.Format/Parse are library loops), the metadata marshal/unmarshal fixed point (reflection-driven encoding/xml), acceptance of arbitrary xsd:duration texts.',
         'harnesses': [
-            {'name': 'Harness_C15_roundtrip', 'pkg': 'saml', 'replay': 'direct', 'must_reach': ['roundtrip'], 'opts': {'dec_tokens': True, 'timeout_ms': 10000, 'concrete_fallback': 3000}, 'thorough': {'timeout_ms': 300000}, 'budget_s': {'quick': 900, 'thorough': 3000}},
-            {'name': 'Harness_C15_digits', 'pkg': 'saml', 'replay': 'direct', 'must_reach': ['roundtrip'], 'opts': {'dec_tokens': 'digits', 'timeout_ms': 10000}, 'thorough': {'timeout_ms': 300000}, 'budget_s': {'quick': 900, 'thorough': 3000}},
+            {'name': 'Harness_C15_roundtrip', 'pkg': 'saml', 'replay': 'direct', 'must_reach': ['roundtrip'], 'opts': {'dec_tokens': True, 'timeout_ms': 10000, 'concrete_fallback': 3000}, 'thorough': {'timeout_ms': 300000}, 'budget_s': {'quick': 900, 'thorough': 1500}},
+            {'name': 'Harness_C15_digits', 'pkg': 'saml', 'replay': 'direct', 'must_reach': ['roundtrip'], 'opts': {'dec_tokens': 'digits', 'timeout_ms': 10000}, 'thorough': {'timeout_ms': 300000}, 'budget_s': {'quick': 900, 'thorough': 1500}},
             {'name': 'Harness_C15_minint', 'pkg': 'saml', 'replay': 'direct', 'must_reach': ['roundtrip'], 'opts': {'dec_tokens': True}},
         ],
     },
@@ -116,7 +116,7 @@ CHECKS = {
         'harnesses': [
             {'name': 'Harness_C17_acs', 'pkg': 'samlsp', 'replay': 'direct', 'must_reach': ['served', 'refused', 'session-established'],
              'validate_labels': ['refused', 'session-established'], 'opts': {'summaries': {'(*github.com/crewjam/saml.ServiceProvider).ParseResponse': 'parse-response-answers'}},
-             'quick': {'params': {'jar.max': 2}}, 'thorough': {'params': {'jar.max': 3}}, 'budget_s': {'quick': 600, 'thorough': 3000}},
+             'quick': {'params': {'jar.max': 2}}, 'thorough': {'params': {'jar.max': 3}}, 'budget_s': {'quick': 600, 'thorough': 1500}},
             {'name': 'Harness_C17_lifetime', 'pkg': 'samlsp', 'replay': 'direct', 'must_reach': ['wired']},
         ],
     },
@@ -139,11 +139,11 @@ CHECKS = {
         'level_note': 'traces come from the real MemoryStore.Get/Put/Delete/List, Server.GetServiceProvider, HandlePutService, HandleDeleteService, HandleIDPInitiated, HandleLogin, HandlePutUser, HandleListServices over the real MemoryStore (sync.Mutex/RWMutex calls and map operations are recorded, not executed concurrently). The schedule is a solver variable; nothing is enumerated except which traces run together. Counterexamples are schedules of the real code\'s events (symbolic replay: Go offers no way to force a schedule natively; the two findings on the pinned tree were confirmed with hand-written native demonstrations). Outside: the Go memory model below conflicting unsynchronised accesses, more than 3 threads, handlers not listed.',
         'harnesses': [
             {'name': 'Harness_C20_ops', 'pkg': 'samlidp', 'replay': 'symbolic', 'mode': 'interleave', 'must_reach': ['op-done'],
-             'opts': {'trace_shared': True, 'no_sign_err': True, 'K': 1}, 'threads': {'quick': 2, 'thorough': 3}, 'budget_s': {'quick': 600, 'thorough': 3000}},
+             'opts': {'trace_shared': True, 'no_sign_err': True, 'K': 1}, 'threads': {'quick': 2, 'thorough': 3}, 'budget_s': {'quick': 600, 'thorough': 1500}},
             {'name': 'Harness_C20_seq', 'pkg': 'samlidp', 'replay': 'direct', 'must_reach': ['sequential']},
             {'name': 'Harness_C20_linearizable', 'pkg': 'samlidp', 'replay': 'stress', 'must_reach': ['quiescent'], 'validate_reach': False,
              'quick': {'params': {'lin.threads': 2, 'lin.ops.0': 2, 'lin.ops.1': 1}},
-             'thorough': {'params': {'lin.threads': 3, 'lin.ops.0': 2, 'lin.ops.1': 1, 'lin.ops.2': 1}}, 'budget_s': {'quick': 600, 'thorough': 3000}},
+             'thorough': {'params': {'lin.threads': 3, 'lin.ops.0': 2, 'lin.ops.1': 1, 'lin.ops.2': 1}}, 'budget_s': {'quick': 600, 'thorough': 1500}},
         ],
     },
     'C18': {
@@ -172,7 +172,7 @@ CHECKS = {
             {'name': 'Harness_C11_rsa', 'pkg': 'xmlenc', 'replay': 'direct', 'must_reach': ['returned', 'rejected'], 'validate_labels': ['rejected'],
              'opts': {'panic_is_violation': True}},
             {'name': 'Harness_C11_shape', 'pkg': 'xmlenc', 'replay': 'direct', 'must_reach': ['returned', 'rejected'], 'validate_labels': ['rejected'],
-             'opts': {'panic_is_violation': True}, 'quick': {'params': {'depth': 1}}, 'thorough': {'params': {'depth': 2}}, 'budget_s': {'quick': 600, 'thorough': 3000}},
+             'opts': {'panic_is_violation': True}, 'quick': {'params': {'depth': 1}}, 'thorough': {'params': {'depth': 2}}, 'budget_s': {'quick': 600, 'thorough': 1500}},
         ],
     },
     'C12': {
@@ -219,7 +219,7 @@ CHECKS = {
             {'name': 'Harness_C06_assertion', 'pkg': 'saml', 'replay': 'direct', 'must_reach': ['made']},
             {'name': 'Harness_C06_attributes', 'pkg': 'saml', 'replay': 'direct', 'must_reach': ['made', 'attribute-value'], 'opts': {'time_res': 1000000},
              'quick': {'K': 1, 'params': {'session.few': 1, 'requested.max': 1, 'rand.mayfail': 0}}, 'thorough': {'K': 1, 'params': {'session.few': 0, 'requested.max': 2, 'rand.mayfail': 0}},
-             'budget_s': {'quick': 600, 'thorough': 6000}},
+             'budget_s': {'quick': 600, 'thorough': 1800}},
             {'name': 'Harness_C06_response', 'pkg': 'saml', 'replay': 'direct', 'must_reach': ['emitted', 'refused'], 'validate_labels': ['emitted'],
              'quick': {'params': {'rand.mayfail': 0}, 'no_sign_err': True}, 'thorough': {'params': {'rand.mayfail': 1}}},
         ],
@@ -232,7 +232,7 @@ CHECKS = {
             {'name': 'Harness_C08_fresh', 'pkg': 'xmlenc', 'replay': 'direct', 'must_reach': ['encrypted'], 'opts': {'loop_limit': 20000, 'params': {'rand.mayfail': 0, 'rand.short': 1, 'rand.short.maxcall': 4}}},
             {'name': 'Harness_C08_certselect', 'pkg': 'saml', 'replay': 'direct', 'must_reach': ['returned', 'advertised', 'nothing-advertised', 'real-cert-selected'],
              'opts': {'panic_is_violation': True}, 'validate_labels': ['nothing-advertised', 'real-cert-selected'],
-             'quick': {'params': {'kd.max': 2}}, 'thorough': {'params': {'kd.max': 3}}, 'budget_s': {'quick': 600, 'thorough': 3000}},
+             'quick': {'params': {'kd.max': 2}}, 'thorough': {'params': {'kd.max': 3}}, 'budget_s': {'quick': 600, 'thorough': 1500}},
             {'name': 'Harness_C08_nodowngrade', 'pkg': 'saml', 'replay': 'direct', 'must_reach': ['made', 'refused', 'plaintext', 'encrypted'],
              'validate_labels': ['plaintext', 'encrypted'], 'opts': {'no_sign_err': True, 'loop_limit': 20000}, 'quick': {'params': {'rand.mayfail': 0}}, 'thorough': {'params': {'rand.mayfail': 1}}},
         ],
